@@ -132,6 +132,8 @@ class Symbolizer:
             c = op.const
             if 'fn' in c:
                 return ('fn', norm_path(c.get('res', c['fn'])))
+            if 'static' in c:
+                return ('static', c['static'])
             iv = int(c['int']) if 'int' in c else None
             return ('const', c['disp'], iv)
         if op.place is not None:
@@ -205,6 +207,7 @@ UNWRAP_CALLS = ('std::option::Option::unwrap', 'std::option::Option::expect', 's
                 'std::result::Result::expect', 'std::option::Option::unwrap_unchecked')
 
 
+ARITH_CALLS = {'add': 'Add', 'sub': 'Sub', 'mul': 'Mul', 'div': 'Div', 'rem': 'Rem'}
 CMP_CALLS = {'eq': 'Eq', 'ne': 'Ne', 'lt': 'Lt', 'le': 'Le', 'gt': 'Gt', 'ge': 'Ge'}
 
 
@@ -238,6 +241,10 @@ def simplify(t):
             return ('index', args[0], args[1])
         if name in UNWRAP_CALLS and args:
             return ('unwrap', args[0])
+        if ls in ARITH_CALLS and len(args) == 2 and 'std::ops::' in name and 'String' not in name:
+            return ('bin', ARITH_CALLS[ls], args[0], args[1])
+        if ls == 'not' and len(args) == 1 and 'std::ops::Not' in name:
+            return ('un', 'Not', args[0])
         if ls in CMP_CALLS and len(args) == 2 and ('PartialEq' in name or 'PartialOrd' in name or 'cmp::' in name):
             return ('bin', CMP_CALLS[ls], args[0], args[1])
         return ('call', name, args, t[3])
@@ -374,13 +381,15 @@ def show(t):
     if k == 'call':
         return '%s(%s)' % (short(t[1]), ', '.join(show(a) for a in t[2]))
     if k == 'agg':
-        return '%s{%s}' % (short(t[2]) if t[2] else t[1], ', '.join(show(a) for a in t[3]))
+        return '%s{%s}' % (short(norm_path(t[2])) if t[2] else t[1], ', '.join(show(a) for a in t[3]))
     if k == 'discr':
         return 'discr(%s)' % show(t[1])
     if k == 'unwrap':
         return 'unwrap(%s)' % show(t[1])
     if k == 'fn':
         return 'fn ' + short(t[1])
+    if k == 'static':
+        return 'static ' + t[1]
     if k == 'env':
         return 'env'
     return str(t)
@@ -431,7 +440,7 @@ def show_in(body, t, depth=0):
     if k == 'call':
         return '%s(%s)' % (short(t[1]), ', '.join(r(a) for a in t[2]))
     if k == 'agg':
-        return '%s{%s}' % (short(t[2]) if t[2] else t[1], ', '.join(r(a) for a in t[3]))
+        return '%s{%s}' % (short(norm_path(t[2])) if t[2] else t[1], ', '.join(r(a) for a in t[3]))
     if k == 'discr':
         return 'discr(%s)' % r(t[1])
     if k == 'unwrap':
@@ -591,3 +600,9 @@ def cmp_facts_at(body, b):
             op = t[1] if pol else NEG[t[1]]
             out.append((op, t[2], t[3]))
     return out
+
+
+def core(t):
+    """value core: casts, integer conversions (from/try_from/into), ok()/unwrap/`?` payloads, clones and
+    derefs stripped everywhere in the tree -- two trees with equal cores denote the same number"""
+    return nosite(deep_peel(t, casts=True, identity=True, unwrap=True))
